@@ -83,7 +83,7 @@ func broken(c *sched.Case) map[int]bool {
 	return out
 }
 
-func judge(c *sched.Case, ev []sched.Event, rc int, wall time.Duration, line string) *outcome {
+func judge(c *sched.Case, ev []sched.Event, rc int, wall time.Duration, reported []int, line string) *outcome {
 	o := &outcome{line: line}
 	fail := func(class, detail string) { o.fails = append(o.fails, [3]string{class, line, detail}) }
 	for _, v := range c.CheckLog(ev) {
@@ -120,7 +120,20 @@ func judge(c *sched.Case, ev []sched.Event, rc int, wall time.Duration, line str
 			onlyExit = false
 		}
 	}
-	if rc != 124 && (!expectFail || (c.KeepGoing && onlyExit)) {
+	// a target plz reports as failed must have failed itself: a dependent of a failed target is never handed to a
+	// worker, so it cannot fail on its own account ("cannot calculate hash for <the dependency's output>")
+	if onlyExit {
+		own := map[int]bool{}
+		for _, f := range failed {
+			own[f] = true
+		}
+		for _, t := range reported {
+			if !own[t] && !br[t] {
+				fail("dependent-of-failed-target-was-run", fmt.Sprintf("plz reports target %d as failed although its command never failed: it was handed to a build worker after a dependency had failed", t))
+			}
+		}
+	}
+	if rc != 124 && !c.Warm && (!expectFail || (c.KeepGoing && onlyExit)) {
 		var tainted func(i int, seen map[int]bool) bool
 		tainted = func(i int, seen map[int]bool) bool {
 			if br[i] {
@@ -168,11 +181,27 @@ func judge(c *sched.Case, ev []sched.Event, rc int, wall time.Duration, line str
 	return o
 }
 
-func traceLine(c *sched.Case, ev []sched.Event, rc int) string {
-	return fmt.Sprintf("trace %s ev=%s rc=%d", c.Encode(), sched.EventsString(ev), rc)
+func traceLine(c *sched.Case, ev []sched.Event, rc int, reported []int) string {
+	return fmt.Sprintf("trace %s rep=%s ev=%s rc=%d", c.Encode(), sched.Ints(reported), sched.EventsString(ev), rc)
 }
 
-func splitTrace(line string) (*sched.Case, []sched.Event, int, bool) {
+func splitTrace(line string) (*sched.Case, []sched.Event, int, []int, bool) {
+	c, ev, rc, ok := splitTrace0(line)
+	var rep []int
+	for _, f := range strings.Fields(line) {
+		if strings.HasPrefix(f, "rep=") && f != "rep=-" {
+			for _, x := range strings.Split(f[4:], ",") {
+				var n int
+				if _, err := fmt.Sscanf(x, "%d", &n); err == nil {
+					rep = append(rep, n)
+				}
+			}
+		}
+	}
+	return c, ev, rc, rep, ok
+}
+
+func splitTrace0(line string) (*sched.Case, []sched.Event, int, bool) {
 	f := strings.Fields(line)
 	if len(f) < 4 || f[0] != "trace" {
 		return nil, nil, 0, false
@@ -257,7 +286,7 @@ func executeOnce(c *sched.Case) *outcome {
 	if err != nil {
 		return &outcome{line: "run " + c.Encode(), out: "harness-error " + err.Error()}
 	}
-	o := judge(c, res.Events, res.RC, res.Wall, traceLine(c, res.Events, res.RC))
+	o := judge(c, res.Events, res.RC, res.Wall, res.ReportedFailed, traceLine(c, res.Events, res.RC, res.ReportedFailed))
 	if res.RC == 124 {
 		o.counts = append(o.counts, fmt.Sprintf("killed-at-limit-after-%ds-without-events", int(res.Idle.Seconds())/10*10))
 		if len(o.fails) > 0 {
@@ -287,12 +316,12 @@ func flush(r *lib.Run, o *outcome) {
 func runOp(r *lib.Run, line string) {
 	switch {
 	case strings.HasPrefix(line, "trace "):
-		c, ev, rc, ok := splitTrace(line)
+		c, ev, rc, rep, ok := splitTrace(line)
 		if !ok {
 			r.Emit(line, "bad-op", false)
 			return
 		}
-		flush(r, judge(c, ev, rc, 0, line))
+		flush(r, judge(c, ev, rc, 0, rep, line))
 	case strings.HasPrefix(line, "run "):
 		c, ok := sched.Decode(strings.TrimPrefix(line, "run "))
 		if !ok {
@@ -307,7 +336,33 @@ func runOp(r *lib.Run, line string) {
 
 // ---------------------------------------------------------------- generator
 
+// slowFirst: a target whose first dependency is slow and succeeds while a later one fails at once (or, warm, has a
+// failing dependency of its own): when the wait loop reaches the later dependency it has already failed.
+func slowFirst(rng *lib.Rng, r *lib.Run, warm bool) *sched.Case {
+	c := &sched.Case{KeepGoing: true, Par: []int{2, 4, 16}[rng.Intn(3)], Warm: warm}
+	if !warm {
+		// 0 slow ok, 1 fails at once, 2 depends on both (slow one first)
+		c.Targets = []sched.Target{{SleepMs: 700 + rng.Intn(500)}, {Fail: "exit"}, {Deps: []int{0, 1}}}
+		c.Roots = []int{2}
+		if rng.Bool() {
+			c.Targets = append(c.Targets, sched.Target{Deps: []int{2}})
+			c.Roots = []int{3}
+		}
+	} else {
+		// 0 slow, rebuilt with a new output; 1 fails (after a moment) in the second invocation; 2 depends on 1 and keeps
+		// its stale output; 3 depends on 0 (first) and 2
+		c.Targets = []sched.Target{{SleepMs: 900 + rng.Intn(500), Touch: true}, {SleepMs: 150 + rng.Intn(150), Fail: "exit"},
+			{Deps: []int{1}}, {Deps: []int{0, 2}}}
+		c.Roots = []int{3}
+	}
+	r.Count("kind:slow-first-then-failed" + map[bool]string{true: "-warm", false: ""}[warm])
+	return c
+}
+
 func genCase(rng *lib.Rng, r *lib.Run, kind string) *sched.Case {
+	if kind == "slowfirst" || kind == "slowfirst-warm" {
+		return slowFirst(rng, r, kind == "slowfirst-warm")
+	}
 	c := &sched.Case{}
 	n := 2 + rng.Intn(9)
 	for i := 0; i < n; i++ {
@@ -395,7 +450,7 @@ func main() {
 	if os.Getenv("VERIF_PLZ") == "" {
 		panic("VERIF_PLZ not set")
 	}
-	kinds := []string{"none", "exit", "exit", "exit", "undef", "bad", "miss", "cycle", "badwait"}
+	kinds := []string{"none", "exit", "exit", "slowfirst", "undef", "bad", "miss", "cycle", "badwait", "slowfirst-warm"}
 	var cases []*sched.Case
 	for i := 0; i < r.N(40, 200); i++ {
 		cases = append(cases, genCase(r.Rng, r, kinds[i%len(kinds)]))
